@@ -42,9 +42,9 @@ Lemma label_match_uniform : forall g c,
   g_chars g = g_chars c /\ g_min g = g_min c /\ g_max g = g_max c.
 Proof.
   intros g c Hg Hc H. unfold uniform_g in *. unfold label_match in H.
+  apply andb_true_iff in H. destruct H as [H H3].
   apply andb_true_iff in H. destruct H as [H1 H2]. apply strs_eqb_eq in H1.
-  apply orb_true_iff in H2. rewrite !N.eqb_eq in H2. split; [exact H1|].
-  destruct H2 as [H2|H2]; split; congruence.
+  apply N.leb_le in H2. apply N.leb_le in H3. split; [exact H1|]. split; lia.
 Qed.
 
 Lemma strs_eqb_refl : forall a, strs_eqb a a = true.
@@ -55,9 +55,9 @@ Proof.
 Qed.
 
 Lemma label_match_of_eq : forall g h,
-  g_chars g = g_chars h -> g_max g = g_max h -> label_match g h = true.
+  g_chars g = g_chars h -> g_min g = g_min h -> g_max g = g_max h -> label_match g h = true.
 Proof.
-  intros g h H1 H2. unfold label_match. rewrite H1, H2, strs_eqb_refl, N.eqb_refl. reflexivity.
+  intros g h H1 H2 H3. unfold label_match. rewrite H1, H2, H3, strs_eqb_refl, !N.leb_refl. reflexivity.
 Qed.
 
 (* ---------- c-edges and parent_states ---------- *)
